@@ -134,7 +134,22 @@ type (
 	Boom struct{}
 	// Spin burns the given time inside the handler.
 	Spin struct{ D time.Duration }
+	// Numbered is a uniquely numbered payload; if Entered is set the handler parks
+	// (closes Entered, waits for Release) - in messages and in requests, in every
+	// instrumented behaviour.
+	Numbered struct {
+		ID      int
+		Entered chan struct{}
+		Release chan struct{}
+	}
 )
+
+func parkIf(m any) {
+	if n, ok := m.(Numbered); ok && n.Entered != nil {
+		close(n.Entered)
+		<-n.Release
+	}
+}
 
 // ActorConfig configures a scripted actor.
 type ActorConfig struct {
@@ -202,6 +217,7 @@ func (a *Actor) handle(kind string, from gen.PID, message any) (err error) {
 		a.rec(kind, from, message, err, st)
 	}()
 	spin(a.Cfg.SpinNs)
+	parkIf(message)
 	switch m := message.(type) {
 	case Do:
 		m.F(a)
@@ -253,6 +269,7 @@ func (a *Actor) HandleCall(from gen.PID, ref gen.Ref, request any) (res any, err
 		a.rec("call", from, request, err, st)
 	}()
 	spin(a.Cfg.SpinNs)
+	parkIf(request)
 	switch m := request.(type) {
 	case Stop:
 		return nil, m.Reason
